@@ -6,6 +6,8 @@
    process for deep nesting). *)
 From Coq Require Import List NArith Arith.
 From SonicV Require Import Model.Err Model.NodeBudget Model.Inplace Model.Meta Model.Arc Model.Cas Model.Latch.
+From Coq Require Import ZArith.
+From SonicV Require Import Gen.Guards Gen.Tables Model.GuardsOk.
 Import ListNotations.
 Local Close Scope N_scope.
 
@@ -39,3 +41,17 @@ Proof. exact history_safe. Qed.
 (* lazily published caches: no null / dangling dereference under any schedule *)
 Theorem cache_memory_safe : forall n sched i, nth_error (thr (Cas.run Strong (Cas.init n) sched)) i <> Some TCrash.
 Proof. exact strong_no_crash. Qed.
+
+(* the same, for the reservation formula read from the source text on this run (lib/guards.py):
+   json_len / G_NODE_DIV + G_NODE_ADD entries are enough for every document that fits the text *)
+Theorem node_buffer_formula_in_source_suffices : forall v total, NodeBudget.len v <= total ->
+  (Z.of_nat (1 + peak v) <= Z.of_nat total / G_NODE_DIV + G_NODE_ADD)%Z.
+Proof. exact node_buffer_guard_suffices. Qed.
+
+(* every index the number fast paths form into POW10_FLOAT and POWER_OF_FIVE_128, for every exponent
+   that passes the guards found in the source on this run, is inside the table dumped on this run *)
+Theorem float_table_indices_in_bounds :
+  (0 <= - G_CL_LO < POW10_FLOAT_LEN /\ G_CL_SPLIT < POW10_FLOAT_LEN /\ G_CL_SPLIT_MUL < POW10_FLOAT_LEN /\
+   G_CL_HI - G_CL_SPLIT_SUB < POW10_FLOAT_LEN /\ 0 < G_CL_SPLIT + 1 - G_CL_SPLIT_SUB /\
+   0 <= (G_NF_LO + 1) + G_NF_IDX /\ (G_NF_HI - 1) + G_NF_IDX < POW5_LEN)%Z.
+Proof. pose proof clinger_guard as C. pose proof normal_fast_guard as N. intuition. Qed.
